@@ -1,9 +1,13 @@
 //! vrt: run-time checks over the compiled type zoo.
 mod c03;
+mod c04;
 mod c05;
 mod c06;
 mod common;
 mod uper;
+
+#[global_allocator]
+static ALLOC: c04::Counting = c04::Counting;
 
 fn main() {
     vcore::harness::install_quiet_panic_hook();
@@ -13,8 +17,10 @@ fn main() {
         "C01" => uper::run_c01(ctx),
         "C02" => uper::run_c02(ctx),
         "C03" => c03::run(ctx),
+        "C04" => c04::run(ctx),
         "C05" => c05::run(ctx),
         "C06" => c06::run(ctx),
+        "C16" => uper::run_c16b(ctx),
         other => {
             eprintln!("vrt does not serve {other}");
             2
